@@ -331,6 +331,10 @@ class FlowTranslator:
                 # x[i] op= e  ==>  x = setitem(x, i, x[i] op e)   (i is a name or a constant: evaluating it twice is harmless)
                 x, i = self.e(tg.value), self.e(tg.slice)
                 return f"SAssign [{_s(tg.value.id)}] (PCall {_s('setitem')} [{x}; {i}; (PBin {_s(BIN[type(st.op)])} (PSub {x} {i}) {self.e(st.value)})])"
+            if (isinstance(tg, ast.Attribute) and isinstance(tg.value, ast.Name) and tg.value.id in self.locals and type(st.op) in BIN):
+                # x.a op= e  ==>  x.a = x.a op e
+                return (f"SSetAttr {_s(tg.value.id)} {_s(tg.attr)} (PBin {_s(BIN[type(st.op)])} (PAttr (PName {_s(tg.value.id)}) {_s(tg.attr)}) "
+                        f"{self.e(st.value)})")
             if not isinstance(st.target, ast.Name) or type(st.op) not in BIN:
                 raise Unsupported("augmented assignment")
             return f"SAssign [{_s(st.target.id)}] (PBin {_s(BIN[type(st.op)])} (PName {_s(st.target.id)}) {self.e(st.value)})"
